@@ -128,25 +128,52 @@ def pair_worker(arg):
         r["bad"] = {"kind": "values", "case": tlaval.to_json(st["case"]), "verdict": verdict, "diff": diff[:5]}
     return r
 
+ACC_FILES = {
+    "st": {"ns/sub/T.1.0.dsdl": "# doc\nuint8 a\nvoid8\nuint16 K = 7\nbool b\n@sealed\n"},
+    "un": {"ns/sub/T.1.0.dsdl": "# doc\n@union\nuint8 a\nuint16 K = 7\nbool b\n@sealed\n"},
+    "del": {"ns/sub/T.1.0.dsdl": "uint8 a\nvoid8\nuint16 K = 7\nbool b\n@extent 64\n"},
+    "svc": {"ns/sub/T.1.0.dsdl": "uint8 a\nuint16 K = 7\n@sealed\n---\nbool b\nvoid8\nuint8 Q = 1\n@extent 64\n"},
+}
+ACC_FILES["inner"] = ACC_FILES["del"]
+ACC_FILES["req"] = ACC_FILES["svc"]
+
+def _acc_object(kind, tag):
+    with dsdlio.Tree(ACC_FILES[kind], tag) as tr:
+        status, res, _ = dsdlio.read_ns(tr.path("ns"))
+    t = res[0]
+    if kind == "inner":
+        return t.inner_type
+    if kind == "req":
+        return t.request_type
+    return t
+
+def _acc_proj(t):
+    def guard(f):
+        try:
+            return f()
+        except Exception as ex:                 # a service type has no bit length set of its own
+            return ("exception", type(ex).__name__)
+    return (t.full_name, t.short_name, t.root_namespace, t.full_namespace, str(t), tuple(t.name_components),
+            tuple(t.namespace_components), tuple(str(a) for a in t.attributes), tuple(str(a) for a in t.fields),
+            tuple(str(a) for a in t.fields_except_padding), tuple(str(a) for a in t.constants),
+            guard(lambda: tuple(sorted(t.bit_length_set))), hash(t), guard(lambda: t.extent),
+            guard(lambda: tuple((f.name, tuple(sorted(o))) for f, o in t.iterate_fields_with_offsets())))
+
 @core.safe
 def acc_worker(arg):
     import pydsdl
     block, seed = arg
     st = tlaval.parse_state_block(block)
-    hist = st["case"]
-    if not hist:
+    if st["ph"] < 2:
         return None
-    fs = {"ns/sub/T.1.0.dsdl": "# doc\nuint8 a\nvoid8\nuint16 K = 7\nbool b\n@sealed\n"}
-    with dsdlio.Tree(fs, "c18a") as tr:
-        status, res, _ = dsdlio.read_ns(tr.path("ns"))
-        t = res[0]
-    def proj(t):
-        return (t.full_name, t.short_name, t.root_namespace, t.full_namespace, str(t), tuple(t.name_components),
-                tuple(t.namespace_components), tuple(str(a) for a in t.attributes), tuple(str(a) for a in t.fields),
-                tuple(str(a) for a in t.fields_except_padding), tuple(str(a) for a in t.constants),
-                tuple(sorted(t.bit_length_set)), hash(t))
-    p0 = proj(t)
+    kind, warm, hist = st["case"]["obj"], st["case"]["warm"], st["case"]["h"]
+    t = _acc_object(kind, "c18a")
+    # what the object must show is taken from an independently built twin, so that a cold object is not touched
+    # before the first accessor call of the history (a first read may behave differently from later ones)
+    p0 = _acc_proj(_acc_object(kind, "c18b"))
     diff = []
+    if warm and _acc_proj(t) != p0:
+        diff.append(("an object and its independently built twin show different things", kind))
     for n, step in enumerate(hist):
         lst = getattr(t, step["acc"])
         try:
@@ -166,16 +193,16 @@ def acc_worker(arg):
         except (AttributeError, TypeError):
             pass            # an immutable sequence is as good as a copy
         try:
-            p = proj(t)
+            p = _acc_proj(t)
         except Exception as ex:
             p = ("exception", type(ex).__name__, str(ex)[:100])
         if p != p0:
             diff.append(("step %d: mutating the list returned by %s (%s) changed the object" % (n + 1, step["acc"], step["op"]),
                          [x for x, y in zip(p, p0) if x != y][:3]))
             break
-    r = {"nt": True, "key": core.jhash(tlaval.to_json(hist))}
+    r = {"nt": True, "key": core.jhash(tlaval.to_json(st["case"]))}
     if diff:
-        r["bad"] = {"kind": "aliasing", "case": tlaval.to_json(hist), "diff": diff}
+        r["bad"] = {"kind": "aliasing", "case": tlaval.to_json(st["case"]), "diff": diff}
     return r
 
 @core.safe
@@ -243,14 +270,17 @@ def expr_worker(seed):
 
 def run(ctx):
     ctx.rule = ("TLC enumerates every ordered pair of 100 type descriptions with the verdict must-equal / must-differ / either, "
-                "and every sequence of <= 3 (accessor, mutation) steps over six list accessors and five mutations; each pair "
+                "and every sequence of <= 2 (quick) / 3 (accessor, mutation) steps over six list accessors and five mutations on six kinds "
+                "of object (structure, union, delimited and its inner type, service and its request), each started cold (no "
+                "accessor read before the history; the expected projection comes from an independently built twin) and warm; each pair "
                 "is built twice independently (separate trees and reads) and ==, !=, hash, Field equality and BitLengthSet "
                 "equality are compared with the verdict; 1/7 of the pairs are pickled; each accessor history is replayed with "
                 "the projection observed after every step; 14 x 14 expression values and 300 random bit length sets are "
                 "compared. Non-trivial = pair of different descriptions; distinct by hash")
-    ctx.assumptions = ["TLC's evaluation of the specification", "byte / utf8 element types and service types are not in the universe"]
+    ctx.assumptions = ["TLC's evaluation of the specification", "byte / utf8 element types and service types are not in the universe of pairs"]
     c02.run_cfg(ctx, "Values", "Values_pairs.cfg", pair_worker, "pairs")
-    c02.run_cfg(ctx, "Values", "Values_acc.cfg", acc_worker, "acc", mk=lambda blocks: [(b, ctx.seed) for b in blocks if ctx.tier != "quick" or core.sampled(b, 4)])
+    c02.run_cfg(ctx, "Values", "Values_acc_quick.cfg" if ctx.tier == "quick" else "Values_acc.cfg", acc_worker, "acc",
+                mk=lambda blocks: [(b, ctx.seed) for b in blocks])
     c02.consume(ctx, core.pmap(expr_worker, [ctx.seed], procs=1), "expr")
     ctx.sample({"a": "struct X {uint8[<=35]}", "b": "struct X {uint8[<=36]; void8}", "verdict": "no or either by approximation"})
 
